@@ -72,6 +72,10 @@ class C01(InvProp):
         for j in range(14 if tier == "quick" else 200):
             rr = Rng(seed, "C01:scale", j)
             yield GI2.scale_inventory(rr, tier, kind=rr.choice(["chain", "fan", "diamond_grid", "long_names", "deep_dirs"]))
+        for j in range(40 if tier == "quick" else 800):
+            yield GI2.yaml_features(Rng(seed, "C01:yaml", j))
+        for j in range(30 if tier == "quick" else 600):
+            yield GI2.numeric_names(Rng(seed, "C01:num", j))
         N = 250 if tier == "quick" else 6000
         for i in range(N):
             r = Rng(seed, "C01", i)
